@@ -1,7 +1,7 @@
 (* Model/Common.v — src/lib.rs (SDJWTCommon) and src/utils.rs: oracles, keys,
    serialization formats, compact / JSON parsing, hash mappings, the reserved
    name check, header algorithm extraction.  Faithful, executable. *)
-From SDJWT Require Import Base.Json Params Codec.Base64 Codec.Utf8 Codec.JsonPrint Codec.JsonParse.
+From SDJWT Require Import Base.Json Params Codec.Base64 Codec.Utf8 Codec.JsonPrint Codec.JsonParse Codec.JsonLax.
 
 (* ------------------------------------------------------------------ *)
 (* Keys and oracles                                                    *)
@@ -115,8 +115,21 @@ Fixpoint all_strings (l : list json) : option (list str) :=
 
 (* parse_json_sd_jwt: serde derive(Deserialize) of SDJWTJson from an object.
    A repeated known field is an error; unknown fields are ignored; kb_jwt may be
-   absent or null.  (The positional array form serde also accepts is outside the model.) *)
-Definition parse_json_form (input : str) : outcome parsed :=
+   absent or null.  (The positional array form serde also accepts is outside the model.)
+   [parse_json_form_strict] reads the WHOLE text with the strict serde_json::Value grammar
+   (Codec/JsonParse.v).  serde streams over the object instead: member names and the values of
+   the five known members are parsed strictly, but the value of every UNKNOWN member is only
+   skipped syntactically by Deserializer::ignore_value (no nesting limit, numbers checked for
+   shape only, \uXXXX escapes without surrogate check; Codec/JsonLax.v).  [parse_json_form]
+   therefore takes the strict reading when the whole text is strict JSON, and otherwise
+   replaces the value of every unknown top-level member by null ([lax_blank_unknown], which
+   fails exactly where ignore_value or the member syntax fails) and reads that text strictly.
+   Strict acceptance implies lax acceptance with the same extent
+   (Proofs/JsonLaxFacts.v), so trying the strict reading first loses nothing. *)
+Definition known_fields : list str :=
+  [lit "protected"; lit "payload"; lit "signature"; lit "disclosures"; lit "kb_jwt"].
+
+Definition parse_json_form_strict (input : str) : outcome parsed :=
   match parse_json_raw input with
   | None => Err "JSON serialization: syntax"
   | Some (JArr _) => Unmodelled "SDJWTJson given as a JSON array"
@@ -147,6 +160,15 @@ Definition parse_json_form (input : str) : outcome parsed :=
         | _, _, _, _ => Err "JSON serialization: missing or ill-typed field"
         end
   | Some _ => Err "JSON serialization: not an object"
+  end.
+
+Definition parse_json_form (input : str) : outcome parsed :=
+  match parse_json_raw input with
+  | Some _ => parse_json_form_strict input
+  | None => match lax_blank_unknown known_fields input with
+            | Some t => parse_json_form_strict t
+            | None => Err "JSON serialization: syntax"
+            end
   end.
 
 Definition parse_sd_jwt (fmt : format) (input : str) : outcome parsed :=
